@@ -314,12 +314,16 @@ theorem lexData_hex (bs : List UInt8) (us : List Bool) (r : List Char) :
 
 theorem isDigit_digitCh : ∀ n, n < 10 → isDigit (digitCh n) = true ∧ (digitCh n).toNat - 48 = n := by decide
 
-theorem natDigits_spec (n : Nat) :
-    (natDigits n).all isDigit = true ∧ natDigits n ≠ [] ∧ digitsVal (natDigits n) = n ∧
-    (10 ≤ n → (natDigits n).head? ≠ some '0') ∧ ((natDigits n).length > 1 → 10 ≤ n) := by
-  induction n using Nat.strongRecOn with
-  | _ n ih =>
-    rw [natDigits]
+theorem natDigitsAux_spec (f n : Nat) (hf : n ≤ f) :
+    (natDigitsAux f n).all isDigit = true ∧ natDigitsAux f n ≠ [] ∧ digitsVal (natDigitsAux f n) = n ∧
+    (10 ≤ n → (natDigitsAux f n).head? ≠ some '0') ∧ ((natDigitsAux f n).length > 1 → 10 ≤ n) := by
+  induction f generalizing n with
+  | zero =>
+    have : n = 0 := by omega
+    subst this
+    refine ⟨by decide, by decide, by decide, by omega, by decide⟩
+  | succ f ih =>
+    rw [natDigitsAux]
     split
     · next h =>
       obtain ⟨d1, d2⟩ := isDigit_digitCh n h
@@ -332,25 +336,27 @@ theorem natDigits_spec (n : Nat) :
         rw [List.foldl_append, i3]
         simp [d2]; omega
       · intro _
-        cases hd : natDigits (n / 10) with
+        cases hd : natDigitsAux f (n / 10) with
         | nil => exact absurd hd i2
         | cons a l =>
           simp
-          rw [hd] at i4 i3
+          rw [hd] at i4 i3 i5
           by_cases h10 : 10 ≤ n / 10
           · have := i4 h10; simpa using this
           · -- single digit n/10 ≥ 1
             intro ha; subst ha
-            have hn : n / 10 < 10 := by omega
-            rw [natDigits, if_pos hn] at hd
-            have : digitCh (n / 10) = '0' := by simpa using (List.cons.inj hd).1
-            have h0 : n / 10 = 0 := by
-              have := (isDigit_digitCh (n / 10) hn).2
-              rw [‹digitCh (n / 10) = '0'›] at this
-              simpa using this.symm
+            have hl : l = [] := by
+              cases l with
+              | nil => rfl
+              | cons b l => exact absurd (i5 (by simp)) h10
+            subst hl
+            simp [digitsVal] at i3
             omega
 
-
+theorem natDigits_spec (n : Nat) :
+    (natDigits n).all isDigit = true ∧ natDigits n ≠ [] ∧ digitsVal (natDigits n) = n ∧
+    (10 ≤ n → (natDigits n).head? ≠ some '0') ∧ ((natDigits n).length > 1 → 10 ≤ n) :=
+  natDigitsAux_spec n n (Nat.le_refl n)
 
 theorem isDigit_facts {c : Char} (h : isDigit c = true) :
     isAlnum c = true ∧ isUpper c = false ∧ (c == '"') = false ∧ (c == '-') = false ∧ (c == '+') = false ∧
